@@ -189,7 +189,7 @@ def _judge_replay(ck, totals, gname, gpath, variant, rc, out, err):
     ck.add("traces_validated_against_impl", summ["scenarios"])
     ck.add("inputstates_replayed_steps", summ["steps"])
     for k, v in summ.items():
-        if isinstance(v, int) and k not in ("scenarios", "steps", "edges", "states"):
+        if isinstance(v, int) and not isinstance(v, bool) and k not in ("scenarios", "steps", "edges", "states"):
             totals[k] = totals.get(k, 0) + v
     if summ["failures"]:
         seen = set()
